@@ -13,7 +13,7 @@ def sh(cmd, cwd=None, timeout=900, env=env):
   p = subprocess.run(cmd, shell=True, cwd=cwd, env=env, stdout=subprocess.PIPE, stderr=subprocess.STDOUT, timeout=timeout)
   return p.returncode, p.stdout.decode('utf-8', 'replace')
 
-res = dict(property=prop, name=name)
+res = dict(property=prop, name=name, round=os.environ.get('MUT_ROUND', 'r1'))
 sh('git checkout -q -- . && git clean -fdq lib', cwd=wt)
 rc, out = sh('git apply %s' % os.path.join(mdir, 'patch.diff'), cwd=wt)
 res['applies'] = rc == 0
